@@ -93,7 +93,7 @@ def run_variant(args):
                         ignore=shutil.ignore_patterns("__pycache__"))
         if "patch" in v:
             import subprocess
-            r = subprocess.run(["git", "apply", "--unsafe-paths", "--directory", tmp, v["patch"]], capture_output=True, text=True, cwd=tmp)
+            r = subprocess.run(["git", "apply", "--include=*/gcmpy/*", "--unsafe-paths", "--directory", tmp, v["patch"]], capture_output=True, text=True, cwd=tmp)
             skip = "" if r.returncode == 0 else "seeded patch does not apply to the current tree"
         else:
             edits = v["edits"] if "edits" in v else [(v["file"], v["old"], v["new"])]
